@@ -89,6 +89,7 @@ func (s *Sem) releasing(fn *ssa.Function, depth int) (always bool, onNil bool) {
 
 func c14(r *Report, s *Sem) {
 	p := r.P
+	defer r.Import(s, "C07", "R8", "R12", "every answer of the authentication exchange is validated, round trips included: on every path to the authentication callback the peer's envelope passed the state, id and offered-scheme tests (checks hoisted out of the loop let the answer to a round trip through unvalidated, and the violation ends in an established session)", 1)
 	defer r.Import(s, "C09", "R2", "R11", "a selection outside the offer is refused: the confirmation is sent only on the ok edges of lookups of the peer's selection in sets built only from the offered lists (validating against what the transport supports lets a client of a TLS-only server pick 'none' and be served)", 6)
 	defer r.Import(s, "C13", "R2", "R10", "ends the goroutines serving it: closing the channel stops the receiver through the per-channel Once shared with the terminal states, and the stop routine cancels the receiver's context and waits for it (closing the transport alone does not wake a receiver parked on a full inbound stream)", 5)
 	R1 := r.Rule("R1", "release on all failure exits: in the per-connection serving function every path from entry to an exit that does not pass the dispatch loop passes a releasing call on the channel (a call all of whose returns closed the transport or found it disconnected)", 1)
